@@ -107,6 +107,10 @@ class Filter(object):
         self_nu_hz = self.nu.to(u.Hz).value
         nu_new_hz = f.nu.to(u.Hz).value
 
+        # The filter may be defined in increasing or decreasing frequency
+        self_nu_min = min(self_nu_hz[0], self_nu_hz[-1])
+        self_nu_max = max(self_nu_hz[0], self_nu_hz[-1])
+
         # Compute re-binned transmission
 
         f.response = np.zeros(nu_new.shape)
@@ -123,8 +127,8 @@ class Filter(object):
             else:
                 nu2 = 0.5 * (nu_new_hz[i] + nu_new_hz[i + 1])
 
-            nu1 = min(max(nu1, self_nu_hz[0]), self_nu_hz[-1])
-            nu2 = min(max(nu2, self_nu_hz[0]), self_nu_hz[-1])
+            nu1 = min(max(nu1, self_nu_min), self_nu_max)
+            nu2 = min(max(nu2, self_nu_min), self_nu_max)
 
             if nu2 != nu1:
                 f.response[i] = integrate_subset(self_nu_hz, self.response, nu1, nu2)
